@@ -10,20 +10,6 @@ namespace HL
 namespace HoverText
 open Ast Balance
 
-/-- byte-wise lexicographic `<` (Go string comparison). -/
-def bytesLt : Bytes → Bytes → Bool
-  | [], [] => false
-  | [], _ :: _ => true
-  | _ :: _, [] => false
-  | a :: r, b :: s => if a < b then true else if b < a then false else bytesLt r s
-
-def insertSorted (k : Bytes) : List Bytes → List Bytes
-  | [] => [k]
-  | x :: r => if bytesLt k x then k :: x :: r else x :: insertSorted k r
-
-/-- `sort.Strings`. -/
-def sortStrings (l : List Bytes) : List Bytes := l.foldr insertSorted []
-
 /-- `getPayeeOrDescription`. -/
 def payeeOrDescription (tx : Transaction) : Bytes := if tx.payee ≠ [] then tx.payee else tx.description
 
@@ -35,7 +21,7 @@ def accountHover (name : Bytes) (b : AccountBalances) (txs : List Transaction) :
     | some cb =>
       if cb.isEmpty then [] else
       bs "**Balance:**\n" ++
-        (sortStrings (cb.map (·.1))).flatMap (fun c => bs "- " ++ Dec.toString (KV.get cb c Dec.zero) ++ bs " " ++ c ++ bs "\n") ++
+        (KV.sortStrings (cb.map (·.1))).flatMap (fun c => bs "- " ++ Dec.toString (KV.get cb c Dec.zero) ++ bs " " ++ c ++ bs "\n") ++
         bs "\n"
   head ++ bal ++ bs "**Postings:** " ++ Dec.natDigits (countPostings name txs)
 
